@@ -314,7 +314,11 @@ size_t carquet_bitpack_32(const uint32_t* values, size_t count,
             temp[j] = values[i + j];
         }
         size_t remaining_bytes = carquet_packed_size(count - i, bit_width);
-        carquet_bitpack8_32(temp, bit_width, output + bytes_written);
+        /* A full group is bit_width bytes; only the bytes of the remaining
+         * values belong to the caller's buffer */
+        uint8_t group[32];
+        carquet_bitpack8_32(temp, bit_width, group);
+        memcpy(output + bytes_written, group, remaining_bytes);
         bytes_written += remaining_bytes;
     }
 
